@@ -497,7 +497,8 @@ def partial_op_obligations(ctx, rep, rule: str, funcs: List[Tuple[object, object
             use_accept = not _reachable_from_pre(prog, eff, concrete, func)
         is_can = func.name == "canhandlerequest"
         inline = (lambda fn, t, d: t.bound_cls is not None or (fn.cls is not None and t.kind == "repo" and not t.by_name
-                                                               and len(t.funcs) == 1 and fn.name == "canhandlerequest")) if is_can else None
+                                                               and len(t.funcs) == 1 and fn.name == "canhandlerequest")
+                  or (d < 2 and fn.cls is None and t.kind == "repo" and not t.by_name and fn.module.name.startswith("pygopherd.protocols"))) if is_can else None
         watch = {id(s.node) for s in sites}
         watch |= {id(n) for n in ast.walk(func.node) if isinstance(n, ast.Subscript) and not isinstance(n.slice, ast.Slice)}
         paths = collect_site_paths(prog, ctx.resolver, func, concrete, watch, inline=inline, fork_returns=is_can)
